@@ -334,13 +334,13 @@ def powV (a b : Val) : M Val := do
   match a with
   | .lc x =>
     match b with
-    | .int n => if n < 0 then raise .value else do let r ← powLN x n.toNat; pure (.lc r)
+    | .int n => if n < 0 then raise .value else if n > 300 then raise .unmodelled else do let r ← powLN x n.toNat; pure (.lc r)
     | .lc e => do let r ← powLL x e; pure (.lc r)
     | _ => tyErr
   | .lcb x => do let r ← neLI x 0; pure (.lcb r)     -- `self.lc != 0` whatever the exponent
   | .fxp x =>
     match b with
-    | .int n => if n < 0 then raise .value else do let r ← powXN x n.toNat; pure (.fxp r)
+    | .int n => if n < 0 then raise .value else if n > 300 then raise .unmodelled else do let r ← powXN x n.toNat; pure (.fxp r)
     | .lc _ => raise .runtime        -- L.__rpow__ → ConstVal(LinCombFxp)
     | _ => tyErr
   | .int c =>
@@ -356,7 +356,7 @@ def powV (a b : Val) : M Val := do
 /-! ### shifts -/
 def lshiftLV (x : LinComb) (b : Val) : M Val := do
   match b with
-  | .int n => do let r ← lshiftLI x n; pure (.lc r)
+  | .int n => if n > 4096 then raise .unmodelled else do let r ← lshiftLI x n; pure (.lc r)
   | .lc e => do let pw ← powLL (LinComb.const 2) e; let r ← mulLL x pw; pure (.lc r)
   | _ => tyErr
 
